@@ -33,7 +33,7 @@ type FuncUnit struct {
 
 type Program struct {
 	Fset  *token.FileSet
-	Pkgs  map[string]*packages.Package // by directory relative to repo root ("hermes", "src/calcHermesBatch")
+	Pkgs  map[string]*packages.Package    // by directory relative to repo root ("hermes", "src/calcHermesBatch")
 	Funcs map[string]map[string]*FuncUnit // pkgdir -> name -> unit
 	// by types.Func object for call resolution
 	ByObj map[*types.Func]*FuncUnit
